@@ -658,6 +658,14 @@ func (f *fnState) specCall(x *spec.Call, c *specCtx) SV {
 	case "str":
 		b, lo, n := arg(0), arg(1), arg(2)
 		return SV{Typ: types.Typ[types.String], Sort: sStr, T: fmt.Sprintf("(strOf %s %s %s)", f.heapMapIn(c.env, "E$uint8", sInt), locOff(fmt.Sprintf("(s-loc %s)", b.T), lo.T), n.T)}
+	case "memkey":
+		// memkey("E$string", "(Array Loc Str)"): the heap map with that cell key
+		k, ok := x.Args[0].(*spec.StrLit)
+		srt, ok2 := x.Args[1].(*spec.StrLit)
+		if !ok || !ok2 {
+			f.fail("%s: memkey needs two string literals", f.fn)
+		}
+		return SV{Sort: srt.V, T: f.get(c.env, k.V, srt.V).T}
 	case "mem":
 		// mem(T) / mem(T.f): the heap map itself, as a value
 		text := x.Args[0].String()
@@ -872,6 +880,11 @@ func (e *Engine) theoryFunc(name string) (string, bool) {
 }
 
 func (f *fnState) flatten(v SV) []string {
+	if v.Typ != nil && v.T == "" && v.LV == nil {
+		if st, ok := v.Typ.Underlying().(*types.Struct); ok && st.NumFields() == 0 {
+			return nil // empty struct: no components
+		}
+	}
 	if len(v.Agg) > 0 {
 		var out []string
 		for _, a := range v.Agg {
@@ -935,6 +948,18 @@ func (e *Engine) bundle(name string, c *specCtx) [][2]string {
 	}
 	var out [][2]string
 	for _, te := range hb.Types {
+		if strings.HasPrefix(te, "key:") {
+			// raw cell key with its sort: key:<cell>:<sort>
+			rest := strings.TrimPrefix(te, "key:")
+			if j := strings.Index(rest, ":"); j > 0 {
+				k, srt := rest[:j], rest[j+1:]
+				if c.f.cellSort[k] == "" {
+					c.f.cellSort[k] = srt
+				}
+				out = append(out, [2]string{k, srt})
+				continue
+			}
+		}
 		switch te {
 		case "M$dom":
 			out = append(out, [2]string{"M$dom", "(Array Int (Array Int Bool))"})
